@@ -694,6 +694,63 @@ def probe_loop():
     return _PROBE_LOOP["loop"]
 
 
+class _Now:
+    """an awaitable that is complete already."""
+    __slots__ = ("v", "e")
+
+    def __init__(self, v=None, e=None):
+        self.v, self.e = v, e
+
+    def __await__(self):
+        if self.e is not None:
+            raise self.e
+        return self.v
+        yield  # noqa: unreachable - makes this a generator
+
+
+class SyncLoop:
+    """the least an event loop has to be for a coroutine that awaits nothing but asyncio.to_thread(f, ...): the function
+    runs at once in the calling thread and the coroutine completes in one send().  Used for the probe requests (a real
+    loop costs several epoll / socketpair system calls per request, which dominate on a loaded machine); whenever the
+    coroutine wants more of its loop than this - it suspends, or anything raises - the caller repeats the requests on
+    a real event loop (probe_loop)."""
+
+    def run_in_executor(self, executor, func, *args):
+        try:
+            return _Now(func(*args))
+        except BaseException as e:  # noqa: BLE001
+            return _Now(e=e)
+
+    def is_running(self):
+        return True
+
+    def is_closed(self):
+        return False
+
+    def get_debug(self):
+        return False
+
+    def run(self, coro):
+        from asyncio import events
+        if events._get_running_loop() is not None:
+            coro.close()
+            raise RuntimeError("a loop is running")
+        events._set_running_loop(self)
+        try:
+            try:
+                coro.send(None)
+            except StopIteration as stop:
+                return stop.value
+            coro.close()
+            raise RuntimeError("the coroutine suspended")
+        finally:
+            events._set_running_loop(None)
+
+
+SYNC_LOOP = SyncLoop()
+PROBE_STATS = {"sync": 0, "real": 0}
+
+
 class Probe:
     """instruments a source object: counts calls, records what each call saw and returned,
     fires the scripted mid-check event after the first source call of a check."""
@@ -968,6 +1025,7 @@ class Setup:
             self.cache = CountingCache()
             self.p0 = doc_obj(c["p0"])
             self.c_p0 = c["p0"]
+            self._pids, self._probed = {}, None
             self.guard = (gated_guard_class(Guard, gate) if gate is not None else Guard)(self.p0, cache=self.cache)
             cfg = c["cfg"]
             self.r = loader.HotReloader(self.guard, self.src, initial_load=bool(c["initial_load"]),
@@ -982,28 +1040,47 @@ class Setup:
         return [res, pol_id(self.guard.policy), self.cache.clears, self.probe.n_etag, self.probe.n_load,
                 r.last_etag, r.last_error is not None, r.suppressed_until, getattr(r, "_backoff", None)]
 
-    def decisions(self):
+    def _pid(self, o):
+        k = id(o)                      # p0 and every loaded object stay alive for the whole case
+        if k not in self._pids:
+            self._pids[k] = pol_id(o)
+        return self._pids[k]
+
+    def decisions(self, final=False):
         """the engine's decisions (public evaluate_async) on the probe requests that tell the documents of the history
-        apart: one request per document - the one the engine shows, the last ones a load() returned before it, the
-        initial one; three at most - asking for that document's own action (action "a0": no document permits it).
+        apart: a request for the own action of the document the engine shows and one for the action of the document
+        before it (the last other one a load() returned, else the initial one; "a0" = an action no document permits).
+        At the end of a history whose engine still shows the object probed last, the first request only.
         -> [[probe, effect], ...]"""
         from rbacx.core.model import Action, Context, Resource, Subject
+        pol = self.guard.policy
+        known = pol is self.p0 or any(pol is o for o in self.probe.loaded_objs[-4:])
         ids = []
-        for x in [pol_id(self.guard.policy)] + [pol_id(o) for o in self.probe.loaded_objs[-3:]][::-1] + [self.c_p0, 0]:
+        for x in [self._pid(pol) if known else pol_id(pol)] + [self._pid(o) for o in self.probe.loaded_objs[-3:]][::-1] \
+                + [self.c_p0, 0]:
             if isinstance(x, int) and not (S_OFF_DOC <= x < N_OFF) and x not in ids:
                 ids.append(x)
-        ids = ids[:3]
+        ids = ids[:1] if (final and pol is self._probed) else ids[:2]
+        self._probed = pol
         subj, res, ctx, guard = Subject("u", ["staff"]), Resource("doc", "1"), Context({}), self.guard
 
-        async def go():
+        async def go(strict):
             got = []
             for i in ids:
                 try:
                     got.append([i, (await guard.evaluate_async(subj, Action("a%d" % i), res, ctx)).effect])
                 except Exception as e:  # noqa: BLE001
+                    if strict:
+                        raise
                     got.append([i, "raised %s: %s" % (type(e).__name__, e)])
             return got
-        return probe_loop().run_until_complete(go())
+        try:
+            got = SYNC_LOOP.run(go(True))
+            PROBE_STATS["sync"] += 1
+            return got
+        except Exception:  # noqa: BLE001
+            PROBE_STATS["real"] += 1
+            return probe_loop().run_until_complete(go(False))
 
     def src_obs(self):
         """source-specific observables (model: ReloadRun.obs_http): HTTP: remembered ETag, number of 304 answers."""
@@ -1093,7 +1170,7 @@ def impl_run(c):
             out["checks"].append(info)
             out["snaps"].append(su.snap(res if raised is None else "raised"))
             out["obs"].append(su.src_obs())
-        out["final_decisions"] = su.decisions()
+        out["final_decisions"] = su.decisions(final=True)
         out["final_loadable_doc"] = su.world.loadable_doc()
         out["src_etag_attr"] = getattr(su.src, "_etag", None) if c["kind"][0] == "http" else None
     except Exception as e:  # noqa: BLE001
@@ -1692,7 +1769,7 @@ KINDS = ([["gen", m] for m in range(4)] + [["file", False], ["file", True], ["ht
 
 def flavour_for(kind, rng):
     if kind[0] == "file":
-        return {"replace": rng.random() < 0.5, "yaml": HAVE_YAML and rng.random() < 0.15}
+        return {"replace": rng.random() < 0.5, "yaml": HAVE_YAML and rng.random() < 0.06}
     if kind[0] == "gen":
         return {"exc": rng.choice(["runtime", "os", "value", "timeout", "custom", "key", "json", "fnf"])}
     if kind[0] == "http":
@@ -1708,11 +1785,18 @@ def flavour_for(kind, rng):
             fl["json_ct"] = rng.choice(["application/json; charset=utf-8", "Application/JSON", "application/problem+json"])
         return fl
     if kind[0] == "s3":
-        return {"rawetag": rng.random() < 0.3, "clienterror": rng.random() < 0.3, "yaml": HAVE_YAML and rng.random() < 0.15}
+        return {"rawetag": rng.random() < 0.3, "clienterror": rng.random() < 0.3, "yaml": HAVE_YAML and rng.random() < 0.06}
     return {}
 
 
 NS_MODES = [0.0] * 8 + [0.6, 0.9]     # per case: the probability that a newly written document is not JSON-serialisable
+#                                       (custom sources: 1 case in 5; sources that have to parse YAML for it - PyYAML's
+#                                       pure-Python loader costs about a millisecond a document -: 1 in 10)
+
+
+def ns_mode(kind, rng):
+    ns = rng.choice(NS_MODES)
+    return ns if (kind[0] == "gen" or rng.random() < 0.5) else 0.0
 
 
 def yaml_flavour(kind, fl, rng):
@@ -1732,7 +1816,7 @@ def make_case(kind, syms, rng, fam, *, il=None, asy=None, p0=None, cfg=None, var
               hows=None, det_u=False, validate=None, ns=None, fl_over=None):
     il = rng.random() < 0.5 if il is None else il
     asy = (kind[0] == "gen" and rng.random() < 0.4) if asy is None else asy
-    ns = rng.choice(NS_MODES) if ns is None else ns
+    ns = ns_mode(kind, rng) if ns is None else ns
     if ns and not (HAVE_YAML or kind[0] == "gen"):
         ns = 0.0
     variant = rng.choice([0, 0, 0, 1, 2] + ([3, 3] if ns else [])) if variant is None else variant
@@ -2048,7 +2132,7 @@ def impl_run_conc(c):
                 out["error"] = "checks %r had not returned after all their steps (more pre-emption points than " \
                                "start | etag | load | set_policy entry | set_policy exit | end?)" % (left,)
         if not out["error"]:
-            out["final_decisions"] = su.decisions()
+            out["final_decisions"] = su.decisions(final=True)
         out["final_loadable_doc"] = su.world.loadable_doc()
         out["final_content"] = su.world.content()
         out["src_etag_attr"] = getattr(su.src, "_etag", None) if c["kind"][0] == "http" else None
@@ -2081,7 +2165,7 @@ def conc_case(kind, order, evs_at, forces, nows, rng, fam, *, cfg=None, il=None,
     """two overlapping checks run in the given order of steps (thread numbers), world events before the k-th step
     (evs_at[k]; k = len(order): after the last one); then the world is made loadable and three sequential unforced
     checks, each beyond any back-off window, follow (c["tail"] = their check numbers)."""
-    ns = rng.choice(NS_MODES) if ns is None else ns
+    ns = ns_mode(kind, rng) if ns is None else ns
     if ns and not (HAVE_YAML or kind[0] == "gen"):
         ns = 0.0
     fl = flavour_for(kind, rng)
@@ -2236,7 +2320,7 @@ def impl_run_stress(c):
         su.ft.now = 1.0 + 4 * BIG
         su.r.check_and_reload()
         out["final_policy"] = pol_id(su.guard.policy)
-        out["final_decisions"] = su.decisions()
+        out["final_decisions"] = su.decisions(final=True)
     except Exception as e:  # noqa: BLE001
         out["error"] = "harness error %s: %s" % (type(e).__name__, e)
     finally:
